@@ -112,7 +112,7 @@ def gen_subms(rng, tier):
     filled, further callers queue; the clock visits the last millisecond boundary BEFORE arrival + max_wait (where a
     wait truncated to whole milliseconds would already be over) and the first one at/after it (where tokio's timer
     fires); in between waiters are polled, holders finish / are cancelled, slots are handed over."""
-    mx = rng.choice([1, 1, 2, 3])
+    mx = rng.choice([1, 1, 2, 3]) if rng.random() >= 0.08 else 0
     us = wait_us(rng)
     lo, hi = us // 1000, (us + 999) // 1000
     header = "bulkhead max=%d wait=%d unit=us" % (mx, us)
@@ -229,7 +229,7 @@ def gen_nested(rng, tier):
 def gen_fanout(rng, tier):
     """a helper creates the response futures and returns only them: every handle is gone before any future is
     polled (or after some have been); the futures still go through ONE bulkhead"""
-    mx = rng.choice([1, 1, 2, 3])
+    mx = rng.choice([1, 1, 2, 3]) if rng.random() >= 0.08 else 0
     wait = rng.choice([None, None, 0, 5, 20])
     header = "bulkhead max=%d" % mx + ("" if wait is None else " wait=%d" % wait)
     n = mx + rng.randint(1, 3)
@@ -253,6 +253,154 @@ def gen_fanout(rng, tier):
     return {"header": header, "ops": ops}
 
 
+FAR = 30 * 365 * 24 * 60 * 60 * 1000      # tokio's far-future horizon in ms: `Sleep::far_future()` = now + 30 years of 365 days —
+#                                            what `timeout(Duration::MAX, ..)` (an unrepresentable deadline) is armed with
+WHEEL = 1 << 36                           # the span of tokio's timer wheel in ms (about 2.2 years): later deadlines are re-armed
+YEAR = 365 * 24 * 60 * 60 * 1000
+#   The harness clock is u64 nanoseconds, cumulative over the cases of one process; `world::begin_case` rewinds it between
+#   cases once a quarter of the range (146 years) is used, so ONE case may span up to about 430 years. Cases below stay
+#   under 100 years.
+
+
+def gen_zero(rng, tier):
+    """`max_concurrent_calls(0)` — a bulkhead used as a kill switch: nobody is ever admitted, and the rejection rule is the
+    ordinary one. Callers arrive at different instants, with every kind of handle, on one or several services; the clock
+    visits deadline-1 / deadline / deadline+1 of the waiters (none / zero / finite / sub-millisecond / Duration::MAX wait);
+    waiters are polled in between, cancelled, the services dropped."""
+    how = rng.random()
+    wait, wait_lo, hdr = None, None, "bulkhead max=0"
+    if how < 0.50:
+        wait = wait_lo = rng.choice([50, 50, 5, 10, 20, 1, rng.randint(1, 60)])
+        hdr += " wait=%d" % wait
+    elif how < 0.62:
+        us = wait_us(rng)
+        wait, wait_lo = (us + 999) // 1000, us // 1000
+        hdr += " wait=%d unit=us" % us
+    elif how < 0.74:
+        wait = wait_lo = 0
+        hdr += rng.choice([" wait=0", " post=reject", " pre=reject", " preset=small", " wait=7 post=reject"])
+    elif how < 0.80:
+        hdr += " wait=max"
+    elif how < 0.86:
+        wait = wait_lo = rng.choice([5, 50])
+        hdr += " pre=reject wait=%d" % wait       # the wait set after reject_when_full() wins
+    if rng.random() < 0.15:
+        hdr += " ctor=%s" % rng.choice(["new", "default"])
+    d = Dims(rng)
+    d.burn_p = rng.choice([0, 0, 0.2])
+    ops = []
+    now = 0
+    marks = []
+    live = []
+    nxt = 1
+    for _ in range(rng.randint(4, 30)):
+        r = rng.random()
+        if (r < 0.30 or not live) and nxt <= 8:
+            c, nxt = nxt, nxt + 1
+            ops.append("arrive %d inner=%d:%s%s" % (c, rng.choice([0, 0, 5, 1000]), pick_outcome(rng), d.words(rng)))
+            live.append(c)
+            if rng.random() < 0.8:
+                ops.append("poll %d" % c)
+                if wait:
+                    marks += [now + wait, now + wait_lo]
+        elif r < 0.60 and live:
+            ops.append("poll %d" % rng.choice(live))
+            if wait:
+                marks += [now + wait, now + wait_lo]
+        elif r < 0.66 and live:
+            ops.append("drop %d" % live.pop(rng.randrange(len(live))))
+        elif r < 0.68:
+            ops.append(rng.choice(["manual dropsvc", "manual readyidle", "manual clonelayer"]))
+        elif r < 0.92:
+            fut = [m for m in marks if m > now]
+            if fut and rng.random() < 0.8:
+                dd = max(0, min(fut) - now + rng.choice([-1, 0, 0, 0, 1])) if rng.random() < 0.7 else max(0, rng.choice(fut) - now)
+            else:
+                dd = rng.choice([0, 1, 2, 5, 10, rng.randint(0, 30)])
+            ops.append("adv %d" % dd)
+            now += dd
+        else:
+            ops.append("settle")
+    ops.append("settle")
+    if rng.random() < 0.5:
+        ops.append("adv %d" % ((wait or 7) + rng.choice([0, 1])))
+        ops.append("settle")
+    return {"header": hdr, "ops": ops}
+
+
+def gen_far(rng, tier):
+    """very long waits. A bulkhead that stays full (a call that never completes, or capacity 0) with queued callers, and
+    the clock moved by years: across the span of tokio's timer wheel (2^36 ms) and across its far-future horizon (30
+    years, where a timer for an unrepresentable deadline fires). No max_wait = no limit: still waiting at 30 years - 1 ms,
+    30 years, 30 years + 1 ms after ITS arrival; a finite wait (2^36 ms, 10 / 30 / 40 years, +-1 ms) is honoured to the
+    millisecond. Afterwards the holder goes away and the waiters are served."""
+    mx = rng.choice([0, 1, 1, 1, 2])
+    r = rng.random()
+    if r < 0.6:
+        wait = None
+    else:
+        wait = rng.choice([WHEEL, WHEEL + 1, WHEEL - 1, 10 * YEAR, FAR, FAR - 1, FAR + 1, 40 * YEAR, YEAR + 500])
+    hdr = "bulkhead max=%d" % mx + ("" if wait is None else " wait=%d" % wait)
+    if rng.random() < 0.15:
+        hdr += " ctor=%s" % rng.choice(["new", "default"])
+    d = Dims(rng, nsvc=rng.choice([1, 1, 1, 2]))
+    d.rdy_p, d.burn_p = 0, rng.choice([0, 0, 0.2])
+    ops = []
+    now = 0
+    t0 = rng.choice([0, 0, 3, 1000])
+    if t0:
+        ops.append("adv %d" % t0)
+        now = t0
+    holders, waiters, arrival = [], [], {}
+    for c in range(1, mx + 1):
+        # holders: never done, (rarely) done soon. No far-future inner latencies: timers with DIFFERENT deadlines beyond the
+        # span of the timer wheel make this tokio version's wheel crash (SIGSEGV in `Wheel::poll`, seen with sleeps of 3 and
+        # 5 years and an advance of 4) — the only far timers of a case are the bulkhead's own, all for the same wait
+        lat = rng.choice([0, 0, 0, 5])
+        out = "never" if lat == 0 else rng.choice(["ok", "ok", "err1", "never"])
+        ops.append("arrive %d inner=%d:%s%s" % (c, lat, out, d.words(rng, svc=0)))
+        ops.append("poll %d" % c)
+        holders.append(c)
+    for c in range(mx + 1, mx + 1 + rng.randint(1, 3)):
+        if waiters and rng.random() < 0.5:
+            dd = rng.choice([1, 7, 1000])
+            ops.append("adv %d" % dd)
+            now += dd
+        ops.append("arrive %d inner=%d:%s%s" % (c, rng.choice([0, 0, 5]), pick_outcome(rng), d.words(rng, svc=0)))
+        ops.append("poll %d" % c)
+        waiters.append(c)
+        arrival[c] = now
+    # stops: per waiter the horizon (and its own deadline) -1 / 0 / +1, with a few stations on the way
+    stops = set()
+    for c in waiters:
+        for base in [FAR] + ([wait] if wait else []):
+            for e in ([-1, 0, 1] if rng.random() < 0.7 else [0]):
+                stops.add(arrival[c] + base + e)
+    for x in [WHEEL, YEAR, 10 * YEAR, 29 * YEAR]:
+        if rng.random() < 0.3:
+            stops.add(now + x + rng.choice([-1, 0, 1]))
+    if rng.random() < 0.3:
+        stops.add(max(stops) + rng.choice([1, 86400000, YEAR]))
+    for stop in sorted(x for x in stops if x > now and x - t0 < 90 * YEAR):
+        ops.append("adv %d" % (stop - now))
+        now = stop
+        for _ in range(rng.randint(1, 3)):
+            q = rng.random()
+            if q < 0.7 and waiters:
+                ops.append("poll %d" % rng.choice(waiters))
+            elif q < 0.8 and holders:
+                ops.append("poll %d" % rng.choice(holders))
+            elif q < 0.85 and holders and now - t0 > FAR:
+                ops.append("drop %d" % holders.pop(rng.randrange(len(holders))))
+            else:
+                ops.append("settle")
+    for c in holders:
+        if rng.random() < 0.7:
+            ops.append("drop %d" % c)
+    ops.append("settle")
+    return {"header": hdr, "ops": ops}
+
+
 def gen(rng, tier):
     r = rng.random()
     if r < 0.08:
@@ -263,7 +411,11 @@ def gen(rng, tier):
         return gen_subms(rng, tier)
     if r < 0.28:
         return gen_nested(rng, tier)
-    mx = rng.choice([1, 1, 2, 2, 3, 4])
+    if r < 0.33:
+        return gen_zero(rng, tier)
+    if r < 0.35:
+        return gen_far(rng, tier)
+    mx = rng.choice([1, 1, 2, 2, 3, 4]) if rng.random() >= 0.05 else 0      # 0: nobody is ever admitted
     wait = rng.choice([None, None, 0, rng.randint(1, 50), rng.randint(1, 50), rng.choice([5, 10, 20])])
     header = "bulkhead max=%d" % mx + ("" if wait is None else " wait=%d" % wait)
     wait_lo = wait
@@ -361,6 +513,10 @@ def gen(rng, tier):
             now += dd
         else:
             ops.append("settle")
+    if "wait=max" not in header and rng.random() < 0.02:
+        # whoever is still waiting (no max_wait; a never-ending holder) is looked at again decades later
+        ops.append("adv %d" % (FAR + rng.choice([0, 0, 1, wait or 0, YEAR]) - (now if rng.random() < 0.5 else 0)))
+        ops.append("settle")
     # C07: quiescence, then a probe burst of `max` gated calls (+1 that must wait / be rejected) on every service —
     # sometimes without quiescence of the OTHER services: a service is probed while its siblings are still busy
     ops.append("settle")
@@ -549,7 +705,9 @@ def mon_c07(case, lines, meta):
                     return "caller %s rejected at t=%s, before arrival (first poll, t=%s) + max_wait=%s" % (
                         c, t, fp[c], wait if wus == wait * 1000 else _fmt_us(wus))
                 due = first_visited_at_or_after(case, fp[c] + wait) if c in fp else None
-                if c in fp and due is not None and t > due and due not in wakes.get(c, []):
+                # (the wake-up may be stamped between the deadline and the first visited instant: the harness makes an
+                # advance of years in stretches, and the timer fires at the end of the stretch that contains the deadline)
+                if c in fp and due is not None and t > due and not any(fp[c] + wait <= x <= due for x in wakes.get(c, [])):
                     return "caller %s (arrived t=%s, max_wait=%s) was not woken at its deadline (wake-ups since its previous poll: %s); rejected only when polled at t=%s" % (c, fp[c], wait, wakes.get(c, []), t)
             elif w[2] == "err:full":
                 return "caller %s rejected with BulkheadFull (semaphore closed?)" % c
@@ -569,11 +727,20 @@ def transitions(case, lines, meta=None):
     subms = hdr.get("unit") == "us" and hdr.get("wait", "0").isdigit() and int(hdr["wait"]) % 1000 != 0
     if subms:
         tags.append("submilli-wait")
+    mx0, _ = _scan(case, lines, meta)
+    if mx0 == 0:
+        tags.append("zero-capacity")
     nested = set()
+    fp0 = {}
     for m in (meta or []):
         mw = m[1].split()
         if mw and mw[0] == "#onpoll":
             nested.add(mw[2])
+        elif mw and mw[0] == "#fp" and len(mw) > 2 and mw[2].isdigit():
+            fp0[mw[1]] = int(mw[2])
+        elif mw and mw[0] == "#pollend" and len(mw) > 3 and mw[3] == "pending" and mw[2].isdigit() and mw[1] in fp0 \
+                and int(mw[2]) >= fp0[mw[1]] + FAR:
+            tags.append("far-future-still-waiting")     # polled 30 years or more after its arrival, still pending
     for o in case["ops"]:
         if " via=pool" in o:
             tags.append("handle-reused")
@@ -586,7 +753,9 @@ def transitions(case, lines, meta=None):
             tags.append("inner_call")
             if w[1] in nested:
                 tags.append("nested-admitted")
-        elif w[0] == "result" and w[2] == "err:timeout" and (subms or w[1] in nested):
+        elif w[0] == "result" and w[2] == "err:timeout" and (subms or w[1] in nested or mx0 == 0):
+            if mx0 == 0:
+                tags.append("zero-capacity-timeout")
             if subms:
                 tags.append("submilli-timeout")
             if w[1] in nested:
@@ -614,7 +783,8 @@ COMMON = {
     "all_transitions": ["inner_call", "dropped-running", "result-ok", "result-err", "result-err-timeout", "result-panic-panic",
                         "refused-error", "refused-notready", "several-services", "handle-reused",
                         "preset-small", "preset-medium", "preset-large", "preset-small-customised",
-                        "submilli-wait", "submilli-timeout", "nested-admitted", "nested-timeout"],
+                        "submilli-wait", "submilli-timeout", "nested-admitted", "nested-timeout",
+                        "zero-capacity", "zero-capacity-timeout", "far-future-still-waiting"],
     "model_modules": ["TR.Model.Bulkhead", "TR.Lemmas.Bulkhead", "TR.Lemmas.Bulkhead2", "TR.Lemmas.BulkheadMulti",
                       "TR.Lemmas.BulkheadLog", "TR.Lemmas.BulkheadWait"],
     "lean_files": ["TR.Model.Bulkhead", "TR.Lemmas.Bulkhead", "TR.Lemmas.Bulkhead2", "TR.Lemmas.BulkheadMulti",
@@ -627,7 +797,10 @@ COMMON = {
             "(used as they come: filled to 10/50/200, or customised), `.name`, `BulkheadConfigBuilder::new/default`; waits with a "
             "sub-millisecond part (`unit=us`: 500 us, 1.5 ms, 33.3 ms, …) with polls / completions / cancellations at the last millisecond "
             "boundary before and the first one at/after the deadline; requests made by the wrapped service itself from inside the poll of an "
-            "admitted call, through a clone of the same bulkhead (`manual onpoll`, nested to depth 2); distinct = distinct "
+            "admitted call, through a clone of the same bulkhead (`manual onpoll`, nested to depth 2); capacity 0 (`max=0`: nobody is ever admitted) "
+            "with every wait setting, deadlines visited -1/0/+1; very long waits: the clock moved by years across the span of tokio's timer "
+            "wheel (2^36 ms) and its far-future horizon (30 years) with callers queued behind a call that never completes (no max_wait, or a "
+            "finite wait of 2^36 ms / 10 / 30 / 40 years +-1 ms); distinct = distinct "
             "implementation event log; non-trivial = a wait timeout, a cancelled running call, a panic, or >= 3 admissions",
     "trusted": ["tokio Semaphore/timeout semantics as transcribed in TR.Model.Bulkhead (sampled by the correspondence check)",
                 "harness: clock_gettime interposition, manual poller, scripted inner service", "python diff/monitors"],
